@@ -1,7 +1,7 @@
 (* Proofs/FaultyProof.v — C12: a copy-up that is interrupted by one fault leaves the layer with no
    entry, the untouched older entry, or a complete copy, and reports an error otherwise. *)
 From AF Require Import Lib.Bytes Lib.Path Lib.Ops Gen.Consts Model.MemFile Model.MemFs Model.Union Model.Cow Model.Cache
-  Model.Faulty Proofs.PathProof Proofs.MemBelow Proofs.FaultyMem.
+  Model.Faulty Proofs.PathProof Proofs.MemBelow Proofs.FaultyMem Proofs.CopyFailedCreate.
 Local Open Scope Z_scope.
 
 (* ---------------------------------------------------------------- the injector, call by call *)
@@ -250,7 +250,7 @@ Definition copy_create {B L : Type} (bstep : B -> op -> B * res) (lstep : L -> o
     (sb : B) (sl1 : L) (name : str) (bh : nat) : B * L * option err :=
   match lstep sl1 (Create name) with
   | (sl2, RHandle lh) => copy_tail bstep lstep sb sl2 name bh lh
-  | (sl2, r) => (sb, sl2, match res_err r with Some e => Some e | None => Some (E KOther) end)
+  | (sl2, r) => (sb, after_failed_create lstep sl2 name, match res_err r with Some e => Some e | None => Some (E KOther) end)
   end.
 
 Lemma copy_file_unfold {B L : Type} (bstep : B -> op -> B * res) (lstep : L -> op -> L * res) sb sl name bh :
@@ -266,7 +266,7 @@ Lemma copy_file_unfold {B L : Type} (bstep : B -> op -> B * res) (lstep : L -> o
     end
   end.
 Proof.
-  unfold copy_file, copy_create, copy_tail.
+  unfold copy_file, copy_file_gen, copy_create, copy_tail, after_failed_create.
   destruct (l_exists lstep sl (copy_dir name)) as [sl0 [[|]|e]]; try reflexivity.
   destruct (lstep sl0 (MkdirAll (copy_dir name) 511)) as [s r].
   destruct r as [| | |?| | |? [?|]|? [?|]|? [?|]|? [?|]|? [?|]|]; reflexivity.
@@ -480,11 +480,25 @@ Proof.
     + apply sane_of_par; [exact P2|]. destruct O2 as [[L _]|F]; [now left | right; now exists (ndata nb)].
     + intros Hne. eapply fault_used_mono; [| |exact (U2 Hne)]; lia.
     + destruct O2 as [O2|O2]; [left; exact O2 | right; right; exact O2].
-  - cbn [res_err]. exists sb, sA, (S c), (Some e), 0%nat. split; [reflexivity|].
-    repeat split; auto.
-    + now apply sane_of_par.
-    + intros _. exists c. split; [lia | rewrite He; discriminate].
-    + right. left. repeat split; auto. discriminate.
+  - (* Create refused by the injector: nothing was done; copyFile removes the name (call c+1, which the single
+       fault cannot hit): an older copy goes away, otherwise the Remove finds nothing *)
+    cbn [res_err]. rewrite after_failed_create_today.
+    assert (Hp : pl (S c) = FltPass).
+    { apply (amo_pass_after pl c c (S c) (S c) Hamo); [lia | | lia]. exists c. split; [lia | rewrite He; discriminate]. }
+    destruct (faulty_plain m_step pl sA (S c) (Remove name) eq_refl) as [H2|(e2 & He2 & _)]; [|congruence].
+    rewrite H2. cbn [fst].
+    assert (Hu : fault_used pl c (S (S c))) by (exists c; split; [lia | rewrite He; discriminate]).
+    destruct Hent as [L|[dat F]].
+    + rewrite (remove_missing sA name Hn L). cbn [fst].
+      exists sb, (bump sA), (S (S c)), (Some e), 0%nat. split; [reflexivity|].
+      repeat split; auto; try lia.
+      * apply sane_of_par; [exact (cosmetic_par_ok sA _ name (cosmetic_bump sA) P) | left; exact L].
+      * right. left. repeat split; auto. discriminate.
+    + destruct (remove_file_spec sA name dat Hn F P) as (s' & E & L' & P' & _). rewrite E. cbn [fst].
+      exists sb, (bump s'), (S (S c)), (Some e), 0%nat. split; [reflexivity|].
+      repeat split; auto; try lia.
+      * apply sane_of_par; [exact (cosmetic_par_ok s' _ name (cosmetic_bump s') P') | left; exact L'].
+      * left. split; [exact L' | discriminate].
 Qed.
 
 (* MkdirAll of the parent (made or refused), then the rest *)
